@@ -153,6 +153,7 @@ def search(payload):
     # HISTORY (history.py): negate() of TEMPORARIES, one after the other (the argument is dropped at once, its address is taken by the next),
     # repeated in several orders and after calls that raise; constants that cannot be hashed (lists, dicts, sets)
     import history
+    from predicate.standard_predicates import is_none_p as is_none_p_
     from predicate.standard_predicates import eq_p as _eq2, ne_p as _ne2, ge_p as _ge2, gt_p as _gt2, le_p as _le2, lt_p as _lt2
     hvals = [0, 1, 2, 3, 4, 5, 7, 8, 9, -1, None, "a", (1, 2), [1, 2], [1], {"a": 1}, {1, 2}, [], 2.5]
 
@@ -179,6 +180,20 @@ def search(payload):
     for c in (0, 1, 3, 2.5, "a", (1, 2), [1, 2], [1]):
         for nm, f in (("ge_p", _ge2), ("gt_p", _gt2), ("le_p", _le2), ("lt_p", _lt2)):
             mks.append((f"negate({nm}({c!r}))", lambda c=c, f=f: f(c)))
+    import copy as _copy4
+    import pickle as _pickle4
+    import re as _re4
+    from predicate.regex_predicate import RegexPredicate as _Rx4
+    mks += [("negate(AlwaysTruePredicate())", lambda: PP.AlwaysTruePredicate()), ("negate(AlwaysFalsePredicate())", lambda: PP.AlwaysFalsePredicate()),
+            ("negate(copy.deepcopy(always_true_p))", lambda: _copy4.deepcopy(PP.always_true_p)), ("negate(pickle.loads(pickle.dumps(always_false_p)))", lambda: _pickle4.loads(_pickle4.dumps(PP.always_false_p))),
+            ("negate(copy.deepcopy(is_none_p))", lambda: _copy4.deepcopy(is_none_p_)), ("negate(copy.deepcopy(is_empty_p))", lambda: _copy4.deepcopy(PP.is_empty_p))]
+    for pat_, fl_ in (("^(yes|no)$", _re4.IGNORECASE), ("^a.c$", _re4.DOTALL), ("^x$", _re4.MULTILINE), ("ab", 0)):
+        try:
+            _Rx4(pat_, flags=fl_)
+            mks.append((f"negate(RegexPredicate({pat_!r}, flags={fl_!r}))", lambda pat_=pat_, fl_=fl_: _Rx4(pat_, flags=fl_)))
+        except TypeError:
+            pass
+    hvals += ["YES", "yes", "No", "maybe", "a\nc", "abc", "x\n", "x", "\nx", "cab"]
     hn, hfails = history.run([(lb, neg_call(mk)) for lb, mk in mks], poison=[("negate(5)  # not a predicate", lambda: negate(5))] * 3, passes=4, seed=int(payload.get("seed", 0)), vetted=True)
     n += hn
     fails += hfails
